@@ -8,6 +8,12 @@ import Driver.Common
    the index of the triple of the CURRENT record that holds them (`?` for a pointer no current triple holds).  Besides, on every lookup it checks the model against itself: the observation equals `specObs` of the
    declaration, the executable invariant `invb` holds afterwards, and the small-step machine run alone (`runSolo`) ends
    in the state and result of the sequential functions; a failure prints `O MODEL-INCONSISTENT …` (a divergence). -/
+/- Type objects are kept by ADDRESS in a `Heap` (records + the `__Name` of every live run-time type object, types and `C`
+   classes alike): a class token `t.<tid>` / `r.<k>` denotes the class value "address + name read NOW"; N/T/W/X run the
+   heap-level `Heap.construct` / `Heap.delete` of `C08_world_history` next to the word-level `Type_New` (their records must
+   agree) — a write of `__Name` is seen through every memoised pointer to that address (`Heap.retarget`), which is how the
+   model reproduces KF-C08-class-memo-stale; after every such operation inside the theorem's territory (`nameWriteSafe`)
+   the executable heap invariant `Heap.okb` must hold again. -/
 open Cello.Dispatch
 
 namespace DispDrv
@@ -401,6 +407,17 @@ def main (args : List String) : IO Unit := do
             s := s.setW r.1
             let res := match r.2 with | .ok .self => "self" | .ok .custom => "custom" | .raised e => excName e | .ub => "ub"
             IO.println s!"O K {res}{dump s tid}"
+        | _, _ => bad
+      else if op = "k" && rest.isEmpty then
+        -- cast(<the type object tid itself>, type tid2)
+        match tidS.toNat?, sym.toNat? with
+        | some tid, some tid2 =>
+          if kindOf s tid = 0 || kindOf s tid2 = 0 || !(kindOf s 0 = 1 && symOf s 0 = "Type") then bad
+          else
+            let r := castW castCls s.w (.typeObj (addrOf s tid)) (addrOf s tid2)
+            s := s.setW r.1
+            let res := match r.2 with | .ok .self => "self" | .ok .custom => "custom" | .raised e => excName e | .ub => "ub"
+            IO.println s!"O k {res}{dump s tid}"
         | _, _ => bad
       else if op = "E" then
         -- E <kind> <tid> <cls> : here tidS = kind, sym = tid
